@@ -1,4 +1,8 @@
 """C16 - static_file never serves a file outside its root."""
+import sys
+
+from crosshair.tracers import is_tracing
+
 from vf.engine import assume, cover
 from vf.query import Q
 from vf import stubs_c16
@@ -7,19 +11,27 @@ import ombott
 from ombott import static_stream
 
 PROPERTY = "C16"
-TECHNIQUE = ("bounded symbolic execution of static_file (CrossHair+z3) on a fully symbolic requested name over an "
-             "in-memory POSIX tree with decoys beside and above the root; every path given to open()/stat() recorded "
+TECHNIQUE = ("bounded symbolic execution of static_file (CrossHair+z3) on a fully symbolic requested name, and on long names "
+             "made of a concrete stretch (size chosen by the solver from lists crossing 8..4097) plus a fully symbolic tail, over "
+             "an in-memory POSIX tree with decoys beside and above the root; every path given to open()/stat() recorded "
              "and resolved by the file system model, response status compared with a lexical reference resolution")
 LEVEL_TEXT = ("For each enumerated spelling of the root (absolute/relative, with/without trailing separator, with dot and "
               "dot-dot segments, nested) the real static_file is executed on EVERY requested name up to the stated length "
               "(any code point: dots, slashes, backslashes, the names of the decoys) and, beyond that length, on names of "
               "enumerated shapes (3-4 symbolic segments of fixed lengths joined by '/' or '//'); for relative roots also as "
-              "the second of two calls between which the working directory changed. z3 decides every branch, so inside the bound: "
+              "the second of two calls between which the working directory changed.  Size as the subject: names = a neutral stretch "
+              "('./'*n, 'sub/../'*n/2, n/2 levels down a real directory chain and up again, a run of n separators, one segment "
+              "of n characters, n leading separators; n from lists crossing 8, 16, 32, 64, 128, 256 and, where stated, 512..4096) "
+              "followed by 0..2 times '../' and every tail of <= 1 character, or (sparser sizes) by every tail of <= 4 characters; "
+              "the same stretches inside the spelling of the root; a root 65 real levels deep; one solver character inside a "
+              "200-character file name or inside a stretch. z3 decides every branch, so inside the bound: "
               "each file handed to open() or described by a non-403/404 response is a regular file strictly below the "
               "root, and every name whose lexical location is outside the root is answered 403 or 404.")
 LEVEL_NOTE = ("Trusted: z3, CrossHair's str model, FakeFS (validated against the real file system on ~10^4 paths) and "
               "py_normpath (CPython 3.10 algorithm, validated against the C normpath of 3.12 on all strings of length <= 7 "
-              "over {a . / \\}), the reference resolution in this file. POSIX separators only; no symbolic links.")
+              "over {a . / \\} and on the long stretches), sym_split (one-pass str.split for symbolic strings, used by py_normpath, FakeFS "
+              "and the reference resolution; compared with the engine's own split under the tracer by the queries model/split/*), "
+              "the reference resolution in this file. POSIX separators only; no symbolic links.")
 FUNCTIONS = ["ombott.static_stream:static_file"]
 STUBS = [
     "FakeFS for os.path.exists/isfile, os.access, os.stat, os.getcwd and open as seen from ombott.static_stream "
@@ -28,6 +40,9 @@ STUBS = [
     "the tracer (CrossHair's default skips every lru_cache, which hides state kept between two calls)",
     "py_normpath (pure-Python normpath of CPython 3.10) inside os.path.abspath as seen from ombott.static_stream; "
     "posixpath.abspath/join themselves are the real code",
+    "sym_split: str.split('/') of a symbolic string in one pass over its code points (CrossHair's own split recurses per "
+    "separator: 0.8 ms per character, RecursionError beyond ~900 separators); used inside py_normpath, FakeFS and the oracle "
+    "only - str.split / str.strip called by ombott itself stay CrossHair's, with the recursion limit lifted under the tracer",
 ]
 ASSUMPTIONS = [
     "POSIX path semantics (os.sep == '/', backslash is an ordinary character); Windows is not covered",
@@ -35,8 +50,8 @@ ASSUMPTIONS = [
     "between calls (family twice)",
     "Range / If-Modified-Since request headers absent (C17); mimetype guessing runs on served names only",
 ]
-OUTSIDE = ["more than two calls / other working-directory changes than the enumerated pairs", "names longer than the stated bound other than the enumerated segment shapes", "roots other than the enumerated "
-           "spellings", "symbolic links, Windows separators/drive letters, bytes file names", "trees other than the fixed one"]
+OUTSIDE = ["more than two calls / other working-directory changes than the enumerated pairs", "names longer than the stated bound other than the enumerated segment shapes and stretch + tail forms, sizes other than the listed ones", "roots other than the enumerated "
+           "spellings", "symbolic links, Windows separators/drive letters, bytes file names", "trees other than the fixed one (+ chain of 130 directories and a 200-character file name in the long families)"]
 BUDGET_S = {"quick": 300, "thorough": 1150}
 
 # a dict is a directory, n >= 0 a readable regular file of n bytes, n < 0 a file without read permission
@@ -86,7 +101,7 @@ def lexical_location(base, name):
     """segments of the place `name` denotes when followed from directory `base` (tuple of segments from '/'),
     POSIX rules without symbolic links: '' and '.' stay, '..' goes up, '..' of '/' is '/'."""
     out = list(base)
-    for seg in name.split("/"):
+    for seg in stubs_c16.sym_split(name, "/"):
         if seg == "" or seg == ".":
             continue
         if seg == "..":
@@ -135,21 +150,39 @@ def check_response(fs, root, name, res, tag=""):
     if not inside and name.startswith("/"):
         inside = strictly_below(lexical_location((), name), root)
     if not inside:
-        return "name %r lies outside the root, answered %r" % (name, status)
+        return "name %s lies outside the root, answered %r" % (brief(name), status)
     cover(tag + ("served-head" if res.body == "" else "served-open"))
     return None
 
 
-def serve(root_spelling, root, name, head, cwd=CWD, tag=""):
+def brief(name):
+    """a long name for a failure text (called on the failing branch only)"""
+    if len(name) <= 90:
+        return "%r" % (name,)
+    return "%r...%r (%d characters, %d separators)" % (name[:24], name[-40:], len(name), len(stubs_c16.sym_split(name, "/")) - 1)
+
+
+# CrossHair's str.strip / str.split recurse once per character / separator: under the tracer the interpreter's
+# recursion limit is lifted for the call (a RecursionError there would be the engine's, not ombott's); native
+# replays run with the interpreter's own limit.
+DEEP_STACK = 40000
+
+
+def serve(root_spelling, root, name, head, cwd=CWD, tag="", tree=None):
     """one call of static_file with working directory `cwd`, on a fresh file system recorder; `root` is the place
     that root_spelling names from that working directory"""
-    fs = FS.fs = stubs_c16.FakeFS(TREE, cwd)
+    fs = FS.fs = stubs_c16.FakeFS(TREE if tree is None else tree, cwd)
     ombott.request.__init__({"REQUEST_METHOD": "HEAD" if head else "GET"})
+    limit = sys.getrecursionlimit()
+    if is_tracing():
+        sys.setrecursionlimit(DEEP_STACK)
     try:
         res = static_stream.static_file(name, root_spelling)
     except Exception as e:
         return check_calls(fs, root) or "not answered: static_file raised %s (opened: %s)" % (
             type(e).__name__, [node and node.path for _, node in fs.opened])
+    finally:
+        sys.setrecursionlimit(limit)
     return check_response(fs, root, name, res, tag)
 
 
@@ -230,6 +263,249 @@ def make_tworoots(first, first_names, second, nmin, nmax):
     return q
 
 
+# ---------------------------------------------------------------- long names, long roots (size as the subject)
+# The tree of the long families: TREE plus, inside the root /d/r, a chain of CHAIN_DEPTH real directories 'c' with a
+# file 'g' in each, and a regular file whose name has LONG_NAME characters.
+CHAIN_DEPTH = 130
+LONG_NAME = 200
+LONG_FILE = "n" * LONG_NAME
+
+
+def _chain(depth):
+    node = {"g": 2}
+    for _ in range(depth - 1):
+        node = {"c": node, "g": 2}
+    return node
+
+
+def _big_tree():
+    tree = {k: (dict(v) if isinstance(v, dict) else v) for k, v in TREE.items()}
+    tree["d"] = dict(TREE["d"])
+    tree["d"]["r"] = dict(TREE["d"]["r"])
+    tree["d"]["r"]["c"] = _chain(CHAIN_DEPTH)
+    tree["d"]["r"][LONG_FILE] = 4
+    return tree
+
+
+TREE_BIG = _big_tree()
+
+# Neutral stretches: text that, followed from a directory, ends in that directory again (for `lead`: text that
+# static_file strips).  n = the number of separators in the stretch (longseg: the number of characters of its one
+# long segment).  `down` = the directory that is entered and left.
+STRETCH = {
+    "dot": lambda n, down: "./" * n,                                                  # n segments '.'
+    "updown": lambda n, down: (down + "/../") * (n // 2) + "./" * (n % 2),            # enter and leave, n/2 times
+    "nest": lambda n, down: (down + "/") * (n // 2) + "./" * (n % 2) + "../" * (n // 2),   # n/2 levels down, then up
+    "run": lambda n, down: ("." + "/" * n) if n else "",                              # one run of n separators
+    "longseg": lambda n, down: ("x" * n + "/../") if n else "",                       # one segment of n characters
+    "lead": lambda n, down: "/" * n,                                                  # n leading separators
+}
+# sizes crossing the usual constants (each -1, +0, +1 where affordable)
+SIZES_QUICK = [0, 1, 7, 8, 15, 16, 31, 32, 33, 63, 64, 65, 127, 128, 129, 255, 256, 257]
+SIZES_BIG = [511, 512, 513, 1023, 1024, 1025, 2047, 2048, 2049, 4095, 4096, 4097]
+SIZES_LEAD = [0, 1, 2, 15, 16, 17, 31, 32, 33, 63, 64, 65]       # str.strip of the engine: 2 ms per stripped character
+
+
+def _pick(cases, i):
+    """cases[i] by explicit comparison (one fork per element, no realisation of i)"""
+    assume(0 <= i < len(cases))
+    for j in range(len(cases)):
+        if i == j:
+            return cases[j]
+    raise AssertionError("unreachable")
+
+
+def make_long(cases, root, tmax):
+    """cases = [(root spelling, concrete front of the name)], chosen by the solver integer i; the requested name is
+    front + tail, tail = every string of <= tmax characters.  The front stays concrete (code points are Python ints),
+    only the tail forks."""
+    def q(i: int, tail: str, head: bool):
+        spelling, front = _pick(cases, i)
+        assume(len(tail) <= tmax)
+        new_process()
+        return serve(spelling, root, front + tail, head, tree=TREE_BIG)
+    return q
+
+
+def make_climb(cases, root, ups, first=None):
+    """as make_long, the name is front + c times '../' + tail, c = 0..ups chosen by the solver, tail = every string
+    of <= 1 character; GET only.  (c = 1, tail 's' is the decoy above the root, c = 2 the one two levels up.)
+    With `first`: that concrete name is requested first, in the same process, nothing reset in between."""
+    def q(i: int, c: int, tail: str):
+        spelling, front = _pick(cases, i)
+        assume(0 <= c <= ups)
+        assume(len(tail) <= 1)
+        climb = ""
+        for j in range(ups + 1):
+            if c == j:
+                climb = "../" * j
+                break
+        new_process()
+        if first is not None:
+            bad = serve(spelling, root, first, False, CWD, "first-", tree=TREE_BIG)
+            if bad:
+                return "first call (name %s): %s" % (brief(first), bad)
+        return serve(spelling, root, front + climb + tail, False, tree=TREE_BIG)
+    return q
+
+
+def make_hole(spelling, root, fronts, body, positions, backs):
+    """name = front + body with the character at one of `positions` replaced by a solver character + back; front
+    and back from concrete lists, chosen by the solver"""
+    def q(a: int, p: int, o: int, b: int, head: bool):
+        front = _pick(fronts, a)
+        at = _pick(positions, p)
+        back = _pick(backs, b)
+        assume(0 <= o <= 0x10FFFF)
+        assume(not 0xD800 <= o <= 0xDFFF)
+        new_process()
+        return serve(spelling, root, front + body[:at] + chr(o) + body[at + 1:] + back, head, tree=TREE_BIG)
+    return q
+
+
+def make_model(front, tmax):
+    """the one-pass split and the normpath built on it agree with the engine's own str.split and the verbatim CPython
+    algorithm on front + every tail (differential check of the stub under the tracer)"""
+    def q(tail: str):
+        assume(len(tail) <= tmax)
+        text = front + tail
+        mine = stubs_c16.sym_split(text, "/")
+        theirs = text.split("/")
+        if len(mine) != len(theirs):
+            return "sym_split: %d pieces, str.split: %d" % (len(mine), len(theirs))
+        for x, y in zip(mine, theirs):
+            if x != y:
+                return "sym_split differs from str.split"
+        if stubs_c16.py_normpath(text) != stubs_c16.py_normpath_ref(text):
+            return "py_normpath differs from the reference algorithm"
+        cover("compared")
+        return None
+    return q
+
+
+def _sizes_text(sizes):
+    return ",".join(map(str, sizes))
+
+
+def build_long(tier):
+    T = tier == "thorough"
+    out = []
+    root = ("d", "r")
+    tree_text = ("tree: the fixed one plus /d/r/c/c/.../c (%d real directories, a file g in each) and a file of %d "
+                 "characters 'n'" % (CHAIN_DEPTH, LONG_NAME))
+
+    def add(family, qid, fn, bound, timeout, covers, config):
+        out.append(Q(qid, fn, bound + "; " + tree_text, timeout=timeout, per_path_timeout=60, expect_cover=covers,
+                     family=family, config=config))
+
+    down = {"abs": "sub", "rel": "sub", "nested": "c"}
+    spell = {"abs": ("/d/r", ("d", "r")), "rel": ("r", ("d", "r")), "abs-slash": ("/d/r/", ("d", "r"))}
+    GET_COVER = ["refused-403", "refused-404", "served-open"]
+
+    # --- climb: dense sizes, cheap tail.  One query per kind of stretch and block of sizes.
+    def climb_blocks(tag, kind):
+        if kind == "lead":           # str.strip of the engine costs 2 ms per stripped character
+            return [SIZES_LEAD[:9]] + ([SIZES_LEAD[9:]] if T else [])
+        blocks = [SIZES_QUICK[:9], SIZES_QUICK[9:]]
+        if T or tag == "abs":
+            blocks += [SIZES_BIG[:6]]
+            if T or kind != "run":   # a run of n separators ends the name when c = 0 and the tail is empty: stripped
+                blocks += [SIZES_BIG[6:]]
+        return blocks
+    for tag in ("abs", "rel"):
+        spelling, loc = spell[tag]
+        kinds = ["dot", "updown", "nest", "run", "longseg", "lead"] if T or tag == "abs" else ["dot", "nest"]
+        for kind in kinds:
+            for sizes in climb_blocks(tag, kind):
+                dirname = "c" if kind == "nest" else "sub"
+                cases = [(spelling, STRETCH[kind](n, dirname)) for n in sizes]
+                qid = "climb/%s/%s/n%d-%d" % (tag, kind, sizes[0], sizes[-1])
+                bound = ("root %r (cwd %s); name = stretch %r of size n in {%s} + c times '../' (c = 0..2) + every tail "
+                         "of 0..1 characters (any code point); GET" % (spelling, CWD, kind, _sizes_text(sizes)))
+                timeout = 240 if T or sizes[-1] <= 300 else 250          # measured <= 20 CPU s (quick set), <= 75 (run/n2047-4097)
+                add("climb", qid, make_climb(cases, loc, 2), bound, timeout, GET_COVER,
+                    {"root": spelling, "stretch": kind, "sizes": sizes, "ups": 2})
+    # the same after a long name has been served in the same process (state kept between calls)
+    for kind, first in [("dot", "./" * 40 + "f"), ("nest", "c/" * 40 + "g")][:2 if T else 1]:
+        sizes = [0, 31, 32, 33, 65, 257]
+        cases = [("/d/r", STRETCH[kind](n, "c")) for n in sizes]
+        bound = ("root '/d/r'; a first call serves the name %s; then name = stretch %r of size n in {%s} + c times '../' "
+                 "(c = 0..2) + every tail of 0..1 characters (any code point); GET" % (brief(first), kind, _sizes_text(sizes)))
+        add("climb", "climb/abs/%s/after-long" % kind, make_climb(cases, root, 2, first), bound, 240,
+            GET_COVER + ["first-served-open"], {"stretch": kind, "sizes": sizes, "ups": 2, "first": first})
+
+    # --- long: sparse sizes just above the usual constants, every tail of <= 4 characters, GET and HEAD
+    plan = [("abs", "dot", [33]), ("abs", "updown", [33]), ("abs", "nest", [65]), ("abs", "run", [257]),
+            ("abs", "dot", [4097]), ("rel", "dot", [65])]
+    if T:
+        plan = [(tag, kind, [n]) for tag in ("abs", "rel") for kind in ("dot", "updown", "nest", "run", "longseg")
+                for n in (33, 65, 257, 1025, 4097)]
+        plan += [("abs-slash", "dot", [n]) for n in (33, 257, 4097)] + [("abs", "lead", [17]), ("abs", "lead", [33])]
+    for tag, kind, sizes in plan:
+        spelling, loc = spell[tag]
+        dirname = "c" if kind == "nest" else "sub"
+        cases = [(spelling, STRETCH[kind](n, dirname)) for n in sizes]
+        qid = "long/%s/%s/n%s/t4" % (tag, kind, "-".join(map(str, sizes)))
+        bound = ("root %r (cwd %s); name = stretch %r of size n in {%s} + every tail of 0..4 characters (any code "
+                 "points); GET and HEAD" % (spelling, CWD, kind, _sizes_text(sizes)))
+        add("long", qid, make_long(cases, loc, 4), bound, 300 if sizes[-1] <= 300 else 600, ALL_COVER,   # measured <= 34 CPU s in quick
+            {"root": spelling, "stretch": kind, "sizes": sizes, "tail": 4})
+
+    # --- longroot: the stretch is in the spelling of the root ('/d/' + stretch + 'r'), the name is short
+    for kind in (["dot", "updown", "nest", "run", "longseg"] if T else ["dot", "nest", "longseg"]):
+        sizes = [33, 65, 257, 1025, 4097] if T else [33, 257, 4097]
+        cases = [("/d/" + STRETCH[kind](n, "r") + "r", "") for n in sizes]
+        bound = ("root '/d/' + stretch %r of size n in {%s} + 'r' (= /d/r); name = c times '../' (c = 0..2) + every tail "
+                 "of 0..1 characters; GET" % (kind, _sizes_text(sizes)))
+        add("longroot", "longroot/%s/climb" % kind, make_climb(cases, root, 2), bound, 120, GET_COVER,
+            {"stretch": kind, "sizes": sizes, "ups": 2})
+        if T:
+            bound = ("root '/d/' + stretch %r of size n in {%s} + 'r' (= /d/r); every name of 0..4 characters (any code "
+                     "points); GET and HEAD" % (kind, _sizes_text(sizes)))
+            add("longroot", "longroot/%s/t4" % kind, make_long(cases, root, 4), bound, 600, ALL_COVER,
+                {"stretch": kind, "sizes": sizes, "tail": 4})
+
+    # --- deep: the root is a directory deep in the real chain; names climb with c times '../'
+    for depth in ([33, 129] if T else [65]):
+        loc = ("d", "r") + ("c",) * depth
+        spelling = "/" + "/".join(loc)
+        ups = depth + 2
+        cases = [(spelling, "../" * n) for n in sorted({0, 1, depth - 1, depth, depth + 1, depth + 2})]
+        bound = ("root %s (the real directory %d levels below /d/r); name = n times '../' (n in {0,1,%d..%d}) + every tail "
+                 "of 0..%d characters (any code points); GET and HEAD" % ("'/d/r' + '/c' * %d" % depth, depth, depth - 1, depth + 2, 3))
+        add("deep", "deep/c%d/t3" % depth, make_long(cases, loc, 3), bound, 300, ALL_COVER,
+            {"root_depth": depth, "tail": 3})
+
+    # --- hole: one solver character inside a long file name / inside a long stretch
+    labelled = [("''", ""), ("'../r/'", "../r/"), ("'./' * 40", "./" * 40)]
+    if T:
+        labelled += [("'sub/../'", "sub/../"), ("'c/' * 40 + '../' * 40", "c/" * 40 + "../" * 40)]
+    fronts = [text for _, text in labelled]
+    backs = ["", "/", "/../f", "/../../s"]
+    positions = [0, 1, LONG_NAME // 2, LONG_NAME - 2, LONG_NAME - 1]
+    bound = ("root '/d/r'; name = front in %s + the %d-character file name with the character at one of the positions %r "
+             "replaced by any code point + back in %r; GET and HEAD" % (
+                 "{%s}" % ", ".join(label for label, _ in labelled), LONG_NAME, positions, backs))
+    add("hole", "hole/longname", make_hole("/d/r", root, fronts, LONG_FILE, positions, backs), bound, 300, ALL_COVER,
+        {"fronts": fronts, "positions": positions, "backs": backs})
+    for kind, n in ([("dot", 64), ("nest", 64), ("updown", 64), ("run", 64)] if T else [("nest", 64)]):
+        body = STRETCH[kind](n, "c" if kind == "nest" else "sub")
+        positions = sorted({0, 1, len(body) // 2 - 1, len(body) // 2, len(body) // 2 + 1, len(body) - 2, len(body) - 1})
+        backs2 = ["f", "../s", "../../s", "sub/g"]
+        bound = ("root '/d/r'; name = stretch %r of size %d with the character at one of the positions %r replaced by any "
+                 "code point + back in %r; GET and HEAD" % (kind, n, positions, backs2))
+        add("hole", "hole/%s%d" % (kind, n), make_hole("/d/r", root, [""], body, positions, backs2), bound, 300, ALL_COVER,
+            {"stretch": kind, "size": n, "positions": positions, "backs": backs2})
+
+    # --- model: the stubs that make long names affordable, against what they replace
+    for kind, n in [("updown", 9), ("run", 5)] + ([("nest", 300), ("lead", 3)] if T else []):
+        front = "/d/r/" + STRETCH[kind](n, "sub")
+        add("model", "model/split/%s%d" % (kind, n), make_model(front, 4 if T else 3),
+            "sym_split == str.split (engine) and py_normpath == reference on '/d/r/' + stretch %r of size %d + every tail of "
+            "0..%d characters" % (kind, n, 4 if T else 3), 300, ["compared"], {"stretch": kind, "size": n})
+    return out
+
+
 ALL_COVER = ["refused-403", "refused-404", "served-open", "served-head"]
 # (first length, last length, split by first character?, CPU timeout); measured CPU s of the slowest root on a loaded
 # machine: 11 / 29 / 94 / 4 pieces <= 70 / 4 pieces <= 210
@@ -300,7 +576,7 @@ def build(tier):
                 out.append(Q("tworoots/%s/%s/%s" % (tag, order, span), make_tworoots(first, names, second, lo, hi), bound,
                              timeout=timeout, expect_cover=ALL_COVER + ["first-served-open"], family="tworoots",
                              config={"roots": [first[0], second[0]], "first_names": names}))
-    return out
+    return out + build_long(tier)
 
 
 def queries(tier):
@@ -319,6 +595,21 @@ class _Answer:
 def selftest(tier):
     stubs_c16.validate_normpath(7)
     stubs_c16.validate_fs(TREE, 5)
+    # the long material: normpath on every stretch (as a name under the root and as a root spelling), the file system
+    # model on the deep chain and the long file name
+    longs = []
+    for kind, make in STRETCH.items():
+        for n in (0, 1, 2, 33, 64, 257, 1024, 4097):
+            for down in ("sub", "c"):
+                longs += ["/d/r/" + make(n, down) + t for t in ("", "f", "../s", "../../s", "..", "/")]
+                longs += ["/d/" + make(n, "r") + "r"]
+    stubs_c16.validate_long(longs)
+    chain = "/d/r" + "/c" * CHAIN_DEPTH
+    extra = [chain, chain + "/g", chain + "/c", chain + "/../g", chain + "/g/..", "/d/r/" + LONG_FILE, "/d/r/" + LONG_FILE + "/",
+             "/d/r/" + LONG_FILE[:-1], "/d/r/" + LONG_FILE + "n", "/d/r/c/" + LONG_FILE, "/d/r/" + "c/../" * 70 + "c/g",
+             "/d/r/" + "c/" * 60 + "../" * 60 + "f", "/d/r/" + "c/" * 131 + "../" * 131 + "f", "/d/r/" + "x" * 300 + "/../f",
+             "/d/r/." + "/" * 300 + "f", "/d/r" + "/c" * 65 + "/.." * 66 + "/s"]
+    stubs_c16.validate_fs(TREE_BIG, 3, extra)
     # the oracle on hand-made behaviour: what a broken static_file would do must be called a failure
     root = ("d", "r")
     fs = stubs_c16.FakeFS(TREE, CWD)
@@ -339,4 +630,16 @@ def selftest(tier):
              "f/.", "//f", "f\\", "\x00", "\udc80", "sub/g"]
     out = [(small, {"name": n, "head": h}, "ok") for n in names if len(n) <= 3 for h in (False, True)]
     out.append((small, {"name": "../s", "head": False}, "rejected"))
+    # long names natively (harness and stubs on plain values; names that stay inside the root, whatever the size)
+    ids = {q.qid for q in build_long(tier)}
+    for qid in ("climb/abs/dot/n0-33", "climb/abs/nest/n63-257", "climb/abs/updown/n2047-4097", "climb/abs/lead/n0-33"):
+        if qid in ids:
+            for i in (0, 5, 8) if "2047" not in qid else (0, 5):
+                for tail in ("", "f", "u", "/", "."):
+                    out.append((qid, {"i": i, "c": 0, "tail": tail}, "ok"))
+                out.append((qid, {"i": i, "c": 3, "tail": ""}, "rejected"))
+    for qid in ("long/abs/dot/n33/t4", "long/abs/dot/n4097/t4", "long/abs/run/n257/t4"):
+        if qid in ids:
+            for tail in ("f", "sub/", "\\..\\", "c/g", "sub/g"):
+                out.append((qid, {"i": 0, "tail": tail, "head": False}, "ok"))
     return out
